@@ -185,3 +185,63 @@ def run_config(chk, facts):
         chk.ob("C06-c", f"build() line {t.line}: slice {show(bd, r)} guarded by len >= {need}", ok, key=f"{bd.path}|slice|{show(bd, r)}",
                file=bd.file, line=t.line, fn=bd.path, detail="a head table shorter than 12 bytes would make this slice panic")
     chk.floor("C06-c", "constant-range slices in build()", n, 3)
+
+    # ---- C06-d -----------------------------------------------------------------------------------
+    chk.rule("C06-d", "T-GUARD: the supplied bytes of a table are altered (Cow::to_mut) or emitted piecewise (constant-range slices) "
+                      "only under the guard `tag == Tag::new(b\"head\")`: every other table comes back byte for byte")
+    nd = 0
+    for bb, t in bd.calls():
+        is_mut = t.callee.endswith("Cow::<'_, B>::to_mut")
+        is_slice = False
+        if (t.callee.endswith("::index") or t.callee.endswith("::index_mut")) and len(t.args) >= 2:
+            r = expr_of(bd, t.args[1])
+            if r[0] == "agg" and r[1][0] == "adt" and r[1][1].startswith("core::ops::range::Range"):
+                bounds = [strip_casts(x) for x in r[2]]
+                # the head-field offsets (8, 12); the zero-padding slice `padding[..rem]` has a computed bound
+                is_slice = bool(bounds) and all(x[0] == "const" and x[2] is not None for x in bounds)
+        if not (is_mut or is_slice):
+            continue
+        nd += 1
+        ok = False
+        for g in branch_guards(bd, bb):
+            c = g.cond
+            if c[0] == "call" and c[1].endswith("Tag as core::cmp::PartialEq>::eq") and g.taken_val != 0 and 'b"head"' in show(bd, c):
+                ok = True
+        chk.ob("C06-d", f"build() line {t.line}: {'to_mut' if is_mut else 'piecewise emission'} only for the head table", ok,
+               key=f"{bd.path}|head-only|{'to_mut' if is_mut else 'slice'}|{nd}", file=bd.file, line=t.line, fn=bd.path,
+               detail="table bytes are modified or re-assembled for a table other than `head`: that table does not come back as supplied")
+    chk.floor("C06-d", "head-specific accesses in build()", nd, 4)
+
+    # ---- C06-e -----------------------------------------------------------------------------------
+    chk.rule("C06-e", "data flow: each directory record is built from (tag, checksum_and_padding(data), running position, data.len()): "
+                      "no case-dependent offset or length")
+    recs = [(bb, t) for bb, t in bd.calls() if t.callee.endswith("font_builder::TableRecord::new")]
+    chk.anchor("C06-e", "TableRecord::new in build()", recs)
+    for bb, t in recs:
+        args = [expr_of(bd, a) for a in t.args]
+        # the offset is (a copy of) an accumulator: a local none of whose definitions is a literal constant and whose
+        # updates are all `acc + x` (it starts at the header length and grows by each table's length and padding)
+        pos_ok = False
+        if len(args) == 4 and args[2][0] == "local":
+            acc = args[2][1]
+            defs = bd.defs().get(acc, [])
+            good = bool(defs)
+            for (dbb, dj, rv) in defs:
+                if hasattr(rv, "callee"):
+                    good = False
+                elif rv[0] == "use" and rv[1][0] == "k":
+                    good = False       # a constant offset
+                elif rv[0] == "use" and rv[1][0] in ("c", "m") and rv[1][1][1]:
+                    e = expr_of(bd, rv[1])
+                    if not (e[0] == "bin" and e[1] == "Add" and any(x == ("local", acc) for x in (strip_casts(e[2]), strip_casts(e[3])))):
+                        good = False
+                elif rv[0] == "use" and rv[1][0] in ("c", "m") and not rv[1][1][1]:
+                    good = False       # a copy of some other variable: a second source for the offset
+            pos_ok = good
+        len_e = strip_casts(args[3]) if len(args) == 4 else ("?",)
+        len_ok = len_e[0] == "call" and len_e[1].endswith("::len")
+        sum_ok = len(args) == 4 and "checksum_and_padding" in show(bd, args[1])
+        chk.ob("C06-e", f"TableRecord::new(tag, {show(bd, args[1])[:30]}.., {show(bd, args[2])[:20]}, {show(bd, args[3])[:24]}..)",
+               pos_ok and len_ok and sum_ok, key=f"{bd.path}|record-args", file=bd.file, line=t.line, fn=bd.path,
+               detail="a directory record whose offset is not the running position (or whose length is not the data length, or whose "
+                      "checksum is not that of the data) does not return the table that was put in")
